@@ -875,7 +875,7 @@ def check_tail(ctx, rep, INNER_FN):
     good = False
     if ase is not None:
         r = strip(ase.ret)
-        if util.is_call(r) and r[1].endswith("::unwrap") and util.is_call(r[2][0]) and r[2][0][1] in ("core::str::from_utf8", "std::str::from_utf8"):
+        if util.is_call(r) and r[1] in util.UNWRAP and util.is_call(r[2][0]) and r[2][0][1] in ("core::str::from_utf8", "std::str::from_utf8"):
             sl = strip(r[2][0][2][0])
             cut = None
             if util.is_call(sl) and sl[1].endswith("::index") and sl[2][1][0] == "agg" and sl[2][1][2] == "std::ops::RangeTo":
